@@ -107,14 +107,11 @@ class TTCollection(object):
         the 'file' argument can be either a pathname or a writable
         file object.
         """
-        if not hasattr(file, "write"):
-            final = None
-            file = open(file, "wb")
-        else:
-            # assume "file" is a writable file object
-            # write to a temporary stream to allow saving to unseekable streams
-            final = file
-            file = BytesIO()
+        # Always write to a temporary stream first: this allows saving to unseekable
+        # streams, and leaves an existing destination file untouched if compiling
+        # any of the fonts fails.
+        final = file
+        file = BytesIO()
 
         tableCache = {} if shareTables else None
 
@@ -154,8 +151,11 @@ class TTCollection(object):
             # Write the length and offset
             file.write(struct.pack(">2L", len(data), dsig_offset))
 
-        if final:
+        if hasattr(final, "write"):
             final.write(file.getvalue())
+        else:
+            with open(final, "wb") as f:
+                f.write(file.getvalue())
         file.close()
 
     def saveXML(self, fileOrPath, newlinestr="\n", writeVersion=True, **kwargs):
